@@ -25,6 +25,16 @@ func init() {
 				w = 5
 				totals = []int{120, 126, 127, 128, 129, 135}
 			}
+			// the redirect guard: a trailing-slash redirect is only issued for paths already in canonical form
+			for _, s := range []int{7, 18} {
+				maxlp := 4
+				if tier == "thorough" {
+					maxlp = 5
+				}
+				for lp := 2; lp <= maxlp; lp++ {
+					js = append(js, &Job{Harness: "C08Dispatch", Params: map[string]int{"set": s, "mode": 1, "lp": lp, "lq": 0, "raw": 0}})
+				}
+			}
 			for _, total := range totals {
 				for place := 0; place < 3; place++ {
 					for filler := 0; filler < 3; filler++ {
@@ -39,9 +49,9 @@ func init() {
 			if tier == "thorough" {
 				hi = 9
 			}
-			return fmt.Sprintf("every input string of 0..%d bytes over the full byte alphabet (256^n each), by solver; long inputs of 120..135 bytes (three concrete fillers) with a fully symbolic window of 3 (quick) / 5 (thorough) bytes at the start, middle or end, crossing the 128-byte stack buffer", hi)
+			return fmt.Sprintf("every input string of 0..%d bytes over the full byte alphabet (256^n each), by solver; long inputs of 120..135 bytes (three concrete fillers) with a fully symbolic window of 3 (quick) / 5 (thorough) bytes at the start, middle or end, crossing the 128-byte stack buffer; redirect guard: two all-redirect routers x every path of 2..4 (quick) / 2..5 (thorough) bytes x GET/POST/CONNECT (a redirect is issued only when the path equals the reference canonical form)", hi)
 		},
-		RequiredCovers: []string{"trailing-slash-in", "input longer than the stack buffer"},
+		RequiredCovers: []string{"trailing-slash-in", "input longer than the stack buffer", "tsr redirected", "tsr neither ignored nor redirected: unmatched"},
 	}
 }
 
@@ -151,8 +161,20 @@ func init() {
 							if tier != "thorough" && lp > 3 && (mode == 1 || mode == 3 || mode == 4) && !(s == 7 && mode == 1 && lq == 0) {
 								continue // redirect configurations fork on every escaping class: longer paths in thorough
 							}
-							js = append(js, &Job{Harness: "C08Dispatch", Params: map[string]int{"set": s, "mode": mode, "lp": lp, "lq": lq}})
+							js = append(js, &Job{Harness: "C08Dispatch", Params: map[string]int{"set": s, "mode": mode, "lp": lp, "lq": lq, "raw": 0}})
 						}
+					}
+				}
+			}
+			// percent-encoded request paths (RawPath set): a %XX escape needs 3 bytes, so paths of 5..6 bytes
+			for k, s := range dsets {
+				for _, mode := range []int{0, 1} {
+					js = append(js, &Job{Harness: "C08Dispatch", Params: map[string]int{"set": s, "mode": mode, "lp": 5, "lq": 0, "raw": 1}})
+					if tier == "thorough" || k < 2 {
+						js = append(js, &Job{Harness: "C08Dispatch", Params: map[string]int{"set": s, "mode": mode, "lp": 7, "lq": 0, "raw": 1}})
+					}
+					if tier == "thorough" {
+						js = append(js, &Job{Harness: "C08Dispatch", Params: map[string]int{"set": s, "mode": mode, "lp": 6, "lq": 1, "raw": 1}})
 					}
 				}
 			}
@@ -173,9 +195,9 @@ func init() {
 			if tier == "thorough" {
 				return "C08(a-c): 204 corpus route sets x every Host of 0..4 bytes x every path of 2..8 bytes (full byte alphabet, no empty segment), method GET; (d,e): 12 sets registered under GET/POST/CONNECT x 5 trailing-slash configurations (all ignore, all redirect, none, mixed per route, router-wide redirect with per-route ignore) x every path of 2..5 bytes x every printable raw query of 0..2 bytes, Location resolved by an RFC 3986 reference resolver; (f): 63 sets x 9 extra routes x every path of 2..6 bytes (Host 0 and 2 bytes)"
 			}
-			return "C08(a-c): 64 corpus route sets x every Host of 0..3 bytes x every path of 2..7 bytes (full byte alphabet, no empty segment), method GET; (d,e): 5 sets registered under GET/POST/CONNECT x 5 trailing-slash configurations x every path of 2..3 bytes (2..4 without redirect, and on one set with it) x every printable raw query of 0..1 bytes, Location resolved by an RFC 3986 reference resolver; (f): 33 sets x 9 extra routes x every path of 2..5 bytes (Host 0 and 2 bytes)"
+			return "C08(a-c): 64 corpus route sets x every Host of 0..3 bytes x every path of 2..7 bytes (full byte alphabet, no empty segment), method GET; (d,e): 5 sets registered under GET/POST/CONNECT x 5 trailing-slash configurations x every path of 2..3 bytes (2..4 without redirect, and on one set with it) x every printable raw query of 0..1 bytes, Location resolved by an RFC 3986 reference resolver, plus percent-encoded requests (RawPath set, every valid raw path of 5 bytes and, on two sets, 7 bytes); (f): 33 sets x 9 extra routes x every path of 2..5 bytes (Host 0 and 2 bytes)"
 		},
-		RequiredCovers: []string{"tsr expected", "no route even after slash adjustment", "tsr expected under a matching host", "tsr ignored: served", "tsr redirected", "tsr but CONNECT: unmatched", "tsr neither ignored nor redirected: unmatched", "irrelevant route compared"},
+		RequiredCovers: []string{"tsr expected", "no route even after slash adjustment", "tsr expected under a matching host", "tsr ignored: served", "tsr redirected", "tsr but CONNECT: unmatched", "tsr neither ignored nor redirected: unmatched", "irrelevant route compared", "percent-encoded request path"},
 	}
 }
 
@@ -351,7 +373,11 @@ func init() {
 							if lp == 0 && lh > 0 {
 								continue
 							}
-							js = append(js, &Job{Harness: "C11Serve", Params: map[string]int{"set": s, "opts": o, "lh": lh, "lp": lp}})
+							js = append(js, &Job{Harness: "C11Serve", Params: map[string]int{"set": s, "opts": o, "lh": lh, "lp": lp, "redir": 0}})
+							// redirecting routes (every third) fork on every escaping class of the Location: short paths, few sets
+							if (s == 7 || s == 9 || s == 18) && lh == 0 && lp >= 2 && lp <= 3 && (o == 0 || o == 3) {
+								js = append(js, &Job{Harness: "C11Serve", Params: map[string]int{"set": s, "opts": o, "lh": lh, "lp": lp, "redir": 1}})
+							}
 						}
 					}
 				}
@@ -360,11 +386,11 @@ func init() {
 		},
 		Bounds: func(tier string) string {
 			if tier == "thorough" {
-				return "119 corpus route sets (routes spread over GET/POST/FOO/OPTIONS, every third route ignoring trailing slashes) x the 4 combinations of method-not-allowed and auto-OPTIONS x request method in {GET,POST,FOO,OPTIONS,DELETE} x every Host of 0..3 bytes x every path of 1..7 bytes and the target '*'"
+				return "119 corpus route sets (routes spread over GET/POST/FOO/OPTIONS; per route: every third ignores trailing slashes; on three sets with paths of 2..3 bytes every third route redirects instead and a redirect-scope middleware observes the redirect handler's context) x the 4 combinations of method-not-allowed and auto-OPTIONS x request method in {GET,POST,FOO,OPTIONS,DELETE} x every Host of 0..3 bytes x every path of 1..7 bytes and the target '*'"
 			}
-			return "39 corpus route sets (routes spread over GET/POST/FOO/OPTIONS, every third route ignoring trailing slashes) x the 4 combinations of method-not-allowed and auto-OPTIONS x request method in {GET,POST,FOO,OPTIONS,DELETE} x every Host of 0..2 bytes x every path of 1..5 bytes and the target '*'"
+			return "39 corpus route sets (routes spread over GET/POST/FOO/OPTIONS; per route: every third ignores trailing slashes; on three sets with paths of 2..3 bytes every third route redirects instead and a redirect-scope middleware observes the redirect handler's context) x the 4 combinations of method-not-allowed and auto-OPTIONS x request method in {GET,POST,FOO,OPTIONS,DELETE} x every Host of 0..2 bytes x every path of 1..5 bytes and the target '*'"
 		},
-		RequiredCovers: []string{"404", "405", "OPTIONS", "OPTIONS *", "served by a route", "primed with an ignored trailing-slash match"},
+		RequiredCovers: []string{"404", "405", "OPTIONS", "OPTIONS *", "served by a route", "primed with an ignored trailing-slash match", "redirect handler context observed"},
 	}
 }
 
@@ -596,9 +622,11 @@ func init() {
 				add(1, 3)
 				add(0, 4)
 			}
-			for k := 0; k < 5; k++ {
+			for k := 0; k < 6; k++ {
 				js = append(js, &Job{Harness: "C19ClientIP", Params: map[string]int{"kind": k}})
 			}
+			// a route's middleware is the router's at creation plus its own, also when routes are created concurrently
+			js = append(js, threadJobs("C13")...)
 			return js
 		},
 		Bounds: func(tier string) string {
@@ -606,9 +634,9 @@ func init() {
 			if tier == "thorough" {
 				b = "g<=3 global options and r<=4 route options (g+r<=5)"
 			}
-			return "every sequence of " + b + " among ignore-trailing-slash(bool), redirect-trailing-slash(bool), client-IP resolver (A, B, nil), middleware (nil or not), annotation (13-key catalogue: ints, strings, structs, pointers, named types, slices, maps, funcs, comparable structs/arrays holding unhashable dynamic values, nil), booleans solver-chosen; creation through NewRoute, Handle and Update; nil handlers through every creation path; Context.ClientIP in the five handler kinds x router resolver present/absent x route resolver inherited/own/none. Accessor consistency for symbolic patterns is decided by C10."
+			return "every sequence of " + b + " among ignore-trailing-slash(bool), redirect-trailing-slash(bool), client-IP resolver (A, B, nil), middleware (nil or not), annotation (13-key catalogue: ints, strings, structs, pointers, named types, slices, maps, funcs, comparable structs/arrays holding unhashable dynamic values, nil), booleans solver-chosen; creation through NewRoute, Handle and Update; nil handlers through every creation path; Context.ClientIP in the five handler kinds x router resolver present/absent x route resolver inherited/own/none. Accessor consistency for symbolic patterns is decided by C10. Two concurrent NewRoute calls with route middleware under the race monitor (0..4 global middleware, three registration APIs)."
 		},
-		RequiredCovers: []string{"route options compared", "invalid route option rejected", "invalid global option rejected", "nil annotation key did not panic", "ClientIP in a route handler", "ClientIP in a non-route handler"},
+		RequiredCovers: []string{"route options compared", "invalid route option rejected", "invalid global option rejected", "nil annotation key did not panic", "ClientIP in a route handler", "ClientIP in a non-route handler", "ClientIP in the redirect handler"},
 		Assumptions:    []string{"maps with `any` keys follow the runtime's hashing rules in the executor (hash of unhashable type panics)", "acceptance of a nil annotation key is not specified (only that it must not panic)"},
 	}
 }
@@ -652,7 +680,7 @@ func init() {
 			}
 			return fmt.Sprintf("every sequence of k<=%d requests over 10 shapes (direct, ignored trailing slash, 404, 405, OPTIONS, redirect, manual Lookup+Clone+Close, CloneWith in a handler, Clone in a handler, tree replaced by Handle before the request) with distinct tokens in path parameter, query, request header, response header, status and body size; every sync.Pool.Get explores each pooled context; every getter read in each handler; clones re-read at the end", k)
 		},
-		RequiredCovers: []string{"Clone of a Lookup context", "CloneWith in a handler", "Clone taken in a handler", "concurrent requests"},
+		RequiredCovers: []string{"Clone of a Lookup context", "CloneWith in a handler", "Clone taken in a handler", "concurrent requests", "redirect handler context observed"},
 		Assumptions:    []string{"sync.Pool modelled as a bag from which Get may return any pooled object (all choices explored) or call New when empty", "concurrent mixes of requests are not decided by this check (see level_note)"},
 	}
 }
@@ -683,6 +711,16 @@ func init() {
 				}
 			}
 			js = append(js, &Job{Harness: "C18Single", Params: map[string]int{}})
+			maxJunk := 4
+			if tier == "thorough" {
+				maxJunk = 6
+			}
+			for fwd := 0; fwd < 2; fwd++ {
+				for n := 0; n <= maxJunk; n++ {
+					js = append(js, &Job{Harness: "C18Crash", Params: map[string]int{"n": n, "fwd": fwd}})
+				}
+			}
+			js = append(js, &Job{Harness: "C18Crash", Params: map[string]int{"n": 5, "fwd": 1}})
 			return js
 		},
 		Bounds: func(tier string) string {
@@ -690,12 +728,13 @@ func init() {
 			if tier == "thorough" {
 				k, n = 4, 6
 			}
-			return fmt.Sprintf("(a) every IPv4 (2^32) and IPv6 (2^128, incl. IPv4-mapped) address against the default, private, loopback and link-local range groups, by solver; (b) header lists of up to %d entries from a 14-entry catalogue (public/private/loopback/link-local v4 and v6, ports, brackets, zones, quotes, Forwarded parameters and capitalisation, empty, junk, unspecified, padded), solver-chosen split over header instances, X-Forwarded-For and Forwarded, trusted counts and limits 1..4; (c) an attacker prefix of 0..%d arbitrary bytes (commas included) in the same or an earlier header instance, for the three rightmost strategies over suffixes of 1..2 catalogue entries; single-header, chain and remote-address resolvers over catalogue pairs", k, n)
+			return fmt.Sprintf("(a) every IPv4 (2^32) and IPv6 (2^128, incl. IPv4-mapped) address against the default, private, loopback and link-local range groups, by solver; (b) header lists of up to %d entries from a 14-entry catalogue (public/private/loopback/link-local v4 and v6, ports, brackets, zones, quotes, Forwarded parameters and capitalisation, empty, junk, unspecified, padded), solver-chosen split over header instances, X-Forwarded-For and Forwarded, trusted counts and limits 1..4; (c) an attacker prefix of 0..%d arbitrary bytes (commas included) in the same or an earlier header instance, for the three rightmost strategies over suffixes of 1..2 catalogue entries; single-header, chain and remote-address resolvers over catalogue pairs; crash freedom: every header value and remote address of 0..4 (quick; Forwarded also 5) / 0..6 (thorough) arbitrary bytes through every resolver", k, n)
 		},
 		RequiredCovers: []string{"IPv4 address inside the default ranges", "IPv6 address inside the default ranges", "IPv4-mapped address inside the default ranges",
 			"trusted count: designated entry", "trusted count: error", "non private: designated entry", "trusted range: designated entry", "trusted range: error",
-			"leftmost: designated entry", "single header: last instance", "chain falls through to the next resolver", "selection exists in the suffix"},
+			"leftmost: designated entry", "single header: last instance", "chain falls through to the next resolver", "selection exists in the suffix", "arbitrary header content survived every resolver"},
 		Assumptions: []string{
+			"strings.TrimSpace modelled for ASCII white space (a non-ASCII byte at the end of an attacker-controlled item prunes the path); strings.EqualFold modelled as ASCII folding",
 			"the IP-literal grammar (net.ParseIP/netip) is executed natively on concrete entries; an attacker-controlled item that the code under test tries to parse as an address is modelled as: invalid when it contains a byte that cannot occur in an IP literal, otherwise one of a few literal addresses of that length, other spellings outside the bound (path pruned)",
 			"the in-package accessor for the default ranges is injected as a go build overlay from /verif/harness/overlay (no file is added to /repo)",
 			"reference for 'not globally routable': IANA IPv4/IPv6 special-purpose registries plus multicast and reserved space, listed in harness/c18.go",
